@@ -212,6 +212,21 @@ int sched_mutex_unlock(pthread_mutex_t *m) {
     return 0;
 }
 
+// generic wait for something another thread (or nobody) will release: used for advisory file locks
+void sched_block_on(const void *key, const std::string &what) {
+    if (!G.multi) sim_abort("deadlock", what + ": nobody in this process can release it");
+    int me = t_thr;
+    G.counters["blocked-on-lock"]++;
+    S.t[me].state = TS_BLOCKED; S.t[me].blocked_on = key;
+    int next = choose(me);
+    if (next < 0) sim_abort("deadlock", what + ": every thread is blocked");
+    switch_to(me, next);
+}
+void sched_wake_all(const void *key) {
+    if (!G.multi) return;
+    for (int i = 0; i < S.n; i++) if (S.t[i].state == TS_BLOCKED && S.t[i].blocked_on == key) { S.t[i].state = TS_RUNNABLE; S.t[i].blocked_on = nullptr; }
+}
+
 struct SimOnce { int32_t state; };   // 0 new, 1 running, 2 done (PTHREAD_ONCE_INIT is 0)
 int sched_once(pthread_once_t *o, void (*fn)()) {
     SimOnce *s = (SimOnce *)o;
